@@ -201,6 +201,33 @@ fn edge_props(prop: &str, tier: &str, seed: u64, threads: usize, out: &str) {
         if fl.starts_with('z') { gen_edge::zst(l) } else { l }
     });
     extra.insert("weak_hash_keys".into(), format!("{} histories with colliding key hashes resp. zero-sized values", nw * wfls.len()));
+    // edge operations issued from inside a live edge loop over one of the nodes involved (a `for` statement or
+    // `for_each`): the lists are what the model of live loops says, and the invariant holds afterwards
+    exec::new_section();
+    let nlive = if quick { 600 } else { 12000 };
+    let fls3 = flavours.clone();
+    spread(&mut ctxs, nlive, |i| {
+        let mut rng = Rng::new(seed.wrapping_mul(127).wrapping_add(i as u64));
+        let fl = fls3[i % fls3.len()];
+        let nn = 2 + rng.below(4);
+        let ncalls = 12 + rng.below(20);
+        let mut l = gen_edge::random_history(&mut rng, fl, &format!("lv{i}"), nn, ncalls, false);
+        l.push("g.new 0".into());
+        for _ in 0..1 + rng.below(3) {
+            let u = rng.below(nn);
+            let which = if exec::is_directed(fl) { ["out", "in"][rng.below(2)] } else { "adj" };
+            let mut ents = vec![];
+            for _ in 0..1 + rng.below(2) {
+                let (a, b) = (if rng.chance(60) { u } else { rng.below(nn) }, if rng.chance(40) { u } else { rng.below(nn) });
+                let op = match rng.below(6) { 0 | 1 => format!("d.{a}.{b}"), 2 => format!("c.{a}.{b}.{}", rng.below(3)), 3 => format!("t.{a}.{b}.{}", rng.below(3)), 4 => format!("x.{}", if rng.chance(50) { a } else { b }), _ => format!("q.{a}.{b}") };
+                ents.push(format!("{}={op}", rng.below(4)));
+            }
+            l.push(format!("iter {which} {u} {}{}", ents.join(";"), if rng.chance(50) { " fold" } else { "" }));
+            l.push("dump".into());
+        }
+        l
+    });
+    extra.insert("live_loops".into(), format!("{nlive} histories followed by edge loops whose body disconnects, connects, isolates or queries"));
     if prop == "C03" {
         // two live node objects with one key (nodes are keys in the model, so these histories are judged by the
         // statement alone): connect / try_connect act on the objects they are called on, whatever their keys
